@@ -338,8 +338,9 @@ func (fx *FnCtx) builtin(st *State, name string, call *ast.CallExpr) []Val {
 				cur.S, cur.T, nc, cur.S, cur.T, el, cur.T, fx.sc.Zero(sl.Elem()), el, cur.T))
 			c := fx.sc.Fresh("appended", cur.S)
 			st.facts = append(st.facts, "(= "+c+" "+t+")")
-			st.facts = append(st.facts, fmt.Sprintf("(forall ((i Int)) (! (= (%s %s i) (ite (= i (len_%s %s)) %s (%s %s i))) :pattern ((%s %s i))))",
-				el, c, cur.S, cur.T, v.T, el, cur.T, el, c))
+			st.facts = append(st.facts, fmt.Sprintf("(forall ((i Int)) (! (= (%s %s i) (ite (= i (len_%s %s)) %s (%s %s i))) :pattern ((%s %s i)) :pattern ((%s %s i))))",
+				el, c, cur.S, cur.T, v.T, el, cur.T, el, c, el, cur.T))
+			st.facts = append(st.facts, fmt.Sprintf("(= (%s %s (len_%s %s)) %s)", el, c, cur.S, cur.T, v.T))
 			cur = Val{c, cur.S, rt}
 		}
 		return []Val{cur}
